@@ -12,6 +12,7 @@ spec/Trace_HistOps.tla  validation of operations recorded on random float data (
 import concurrent.futures
 import random
 
+from .. import core
 from .. import histlib as hl
 from .. import hist12lib as h12
 
@@ -48,6 +49,17 @@ def corrupt_conv(r):
         cells[0], cells[1] = cells[1], cells[0]
         return dict(r, cells=cells)
     return None
+
+
+def guarded(report, what, rec, fn, *args):
+    """An exception that escapes a replay (none is expected to: the replays catch what the statement allows) is a
+    verdict about the operation, not a machinery error."""
+    try:
+        fn(*args)
+    except core.MachineryError:
+        raise
+    except Exception as exc:   # noqa
+        report("%s:unexpected-exception:%s" % (what, type(exc).__name__), {"scenario": rec, "exception": repr(exc)[:300]})
 
 
 def trace_phase(ctx, recs, kinds):
@@ -125,7 +137,7 @@ def run(ctx):
         for fut, what in ((f_h1, "histogram_op"), (f_h2, "histogram_history"), (f_h3, "histogram_scale_sequence")):
             hrecs = fut.result()
             for k, rec in enumerate(hrecs):
-                h12.replay_histops(ctx, rec, k, report, extra)
+                guarded(report, what, rec, h12.replay_histops, ctx, rec, k, report, extra)
                 ctx.case([what, rec], nontrivial=True)
             ctx.sample({"spec_" + what: hrecs[len(hrecs) // 2]})
         for fut, what in ((f_g1, "graph_op"), (f_g2, "graph_history"), (f_g3, "graph_scale_sequence")):
@@ -133,7 +145,7 @@ def run(ctx):
                 continue
             grecs = fut.result()
             for k, rec in enumerate(grecs):
-                h12.replay_graph(ctx, rec, k, report)
+                guarded(report, what, rec, h12.replay_graph, ctx, rec, k, report)
                 ctx.case([what, rec], nontrivial=True)
             ctx.sample({"spec_" + what: grecs[len(grecs) // 3]}, limit=8)
         for fut in (f_mc1, f_mc2, f_mc3):
@@ -148,7 +160,7 @@ def run(ctx):
              "by 1/2, 1, 2 tolerances, at 9 magnitudes of the edges) on every histogram of HistOps_export and TLC-generated "
              "4-operation histories, at 7 magnitudes of edges and contents; every "
              "graph (1..3 coordinates, every ordered choice of 0..3 error fields, 4 name sets) x scale x target and "
-             "3-operation histories; every conversion of Convert.tla (3 coordinate modes, all index ranges, both "
+             "every getter / setter sequence of length 4 (thorough: and generated histories); every conversion of Convert.tla (3 coordinate modes, all index ranges, both "
              "duplicate_last_bin, functions and ToCSV / HistToGraph elements, int/float contents, list/tuple edges); "
              "C2S: seeded random float histograms / graphs, every recorded operation validated by Trace_HistOps",
         exhaustive=True)
